@@ -300,7 +300,7 @@ func wrongLayouts(l geom.Layout) []geom.Layout {
 	case geom.XYZM:
 		return []geom.Layout{geom.XYZ, geom.Layout(5)}
 	default:
-		return []geom.Layout{geom.XYZM}
+		return []geom.Layout{geom.XYZM, geom.Layout(l.Stride() + 1)}
 	}
 }
 
@@ -373,22 +373,26 @@ func c02Alphabet(k ref.Kind, l geom.Layout) []c02Op {
 		for _, wl := range wrongLayouts(l) {
 			wl := wl
 			ops = append(ops, c02Op{"Push(wrong layout " + wl.String() + ")", func(s *c02State) string {
+				// every part of the menu in the wrong layout, the largest first: each one fails and
+				// leaves the receiver as it was, so one operation can try them all
 				menu := partMenu(k, wl)
-				bad := menu[len(menu)-1].MustBuild()
-				before := stateKey(s.g)
-				err := pushPart(s.g, bad)
-				var lm geom.ErrLayoutMismatch
-				if err == nil {
-					return "Push of a " + wl.String() + " part into a " + l.String() + " geometry succeeded"
-				}
-				if !errors.As(err, &lm) {
-					return fmt.Sprintf("error %T is not ErrLayoutMismatch", err)
-				}
-				if lm.Got != wl || lm.Want != l {
-					return fmt.Sprintf("ErrLayoutMismatch{Got:%v,Want:%v}, expected {%v,%v}", lm.Got, lm.Want, wl, l)
-				}
-				if stateKey(s.g) != before {
-					return "failed Push changed the receiver"
+				for i := len(menu) - 1; i >= 0; i-- {
+					bad := menu[i].MustBuild()
+					before := stateKey(s.g)
+					err := pushPart(s.g, bad)
+					var lm geom.ErrLayoutMismatch
+					if err == nil {
+						return "Push of a " + wl.String() + " part (" + shapeOf(menu[i]) + ") into a " + l.String() + " geometry succeeded"
+					}
+					if !errors.As(err, &lm) {
+						return fmt.Sprintf("error %T is not ErrLayoutMismatch", err)
+					}
+					if lm.Got != wl || lm.Want != l {
+						return fmt.Sprintf("ErrLayoutMismatch{Got:%v,Want:%v}, expected {%v,%v}", lm.Got, lm.Want, wl, l)
+					}
+					if stateKey(s.g) != before {
+						return "failed Push changed the receiver"
+					}
 				}
 				return ""
 			}})
@@ -741,19 +745,34 @@ func c02Run(c *engine.Ctx) {
 	}
 	c.Note("max_depth", depth)
 	type job struct {
-		k    ref.Kind
-		l    geom.Layout
-		init int
+		k     ref.Kind
+		l     geom.Layout
+		init  int
+		depth int
 	}
 	var jobs []job
+	// the wider layouts (more ordinates per coordinate than any named layout has) at a smaller
+	// depth first: every operation of the alphabet once from every state two operations deep
+	wide := []geom.Layout{geom.XYZM, geom.Layout(5), geom.Layout(7)}
+	if c.Thorough() {
+		wide = []geom.Layout{geom.Layout(6), geom.Layout(7), geom.Layout(9)}
+	}
+	c.Note("wide_layouts_depth", 3)
 	for _, k := range []ref.Kind{ref.Polygon, ref.MultiPoint, ref.MultiLineString, ref.MultiPolygon} {
-		for _, l := range layouts {
-			jobs = append(jobs, job{k, l, 0}, job{k, l, 1})
+		for _, l := range wide {
+			jobs = append(jobs, job{k, l, 0, 3}, job{k, l, 1, 3})
 		}
 	}
-	jobs = append(jobs, job{ref.Collection, geom.NoLayout, 0})
+	for _, k := range []ref.Kind{ref.Polygon, ref.MultiPoint, ref.MultiLineString, ref.MultiPolygon} {
+		for _, l := range layouts {
+			jobs = append(jobs, job{k, l, 0, depth}, job{k, l, 1, depth})
+		}
+	}
+	jobs = append(jobs, job{ref.Collection, geom.NoLayout, 0, depth})
 	var maxDepthDone int64 = int64(depth)
+	fullDepth := depth
 	for _, j := range jobs {
+		depth := j.depth
 		ops := c02Alphabet(j.k, j.l)
 		seen := map[[16]byte]struct{}{}
 		var mu sync.Mutex
@@ -761,7 +780,7 @@ func c02Run(c *engine.Ctx) {
 		c02Exec(c, c02Case{Kind: j.k, Layout: j.l, Init: j.init}, func(k string) { seen[hash128(k)] = struct{}{} })
 		for d := 1; d <= depth && len(frontier) > 0; d++ {
 			if c.Expired() {
-				if int64(d-1) < maxDepthDone {
+				if int64(d-1) < maxDepthDone && j.depth == fullDepth {
 					maxDepthDone = int64(d - 1)
 				}
 				break
